@@ -17,7 +17,9 @@ Extraction "model.ml" run.
 EOT
   ( cd "$d" && timeout 600 coqc -Q ../../.. EN -w none Ext.v > ext.log 2>&1 \
       && cp ../../driver.ml driver.ml \
-      && timeout 600 ocamlfind ocamlopt -O2 -w -a model.mli model.ml driver.ml -o ../../bin/modelrun_$id >> ext.log 2>&1 ) \
+      && root=$(grep -oE '^let (rec )?run[0-9]* ' model.ml | tail -1 | sed -E 's/^let (rec )?//; s/ $//') \
+      && echo "let run = Model.$root" > entry.ml \
+      && timeout 600 ocamlfind ocamlopt -O2 -w -a model.mli model.ml entry.ml driver.ml -o ../../bin/modelrun_$id >> ext.log 2>&1 ) \
     || { echo "extraction failed for $id (see $d/ext.log)"; status=1; }
 done
 exit 0
